@@ -1177,3 +1177,77 @@ var reflectPanicky = map[string]string{
 	"Send":            "on a non-channel",
 	"Close":           "on a non-channel",
 }
+
+// RunOkObj — R-NILOBJ (comma-ok lookups): a module function with the results (object, found) — Env.Get — yields a nil
+// object when it did not find one. Where such a result is stored, passed on, returned or called on, the found flag of
+// that very call is known to be true, or the object was tested against nil: `parent, _ := env.Get("loop")` stored as a
+// property puts a Go nil among the objects, which panics when the property is printed, dumped or tested.
+func (m *Model) RunOkObj(s *Sink, rule string, fns []*ssa.Function) {
+	objT := m.objectIface()
+	if objT == nil {
+		s.Undecided(rule, "object.Object", "-", "not found")
+		return
+	}
+	isLookup := func(f *ssa.Function) bool {
+		r := f.Signature.Results()
+		return m.InModule(f) && r.Len() == 2 && types.Identical(r.At(0).Type(), objT) && isBoolT(r.At(1).Type())
+	}
+	n := 0
+	for _, fn := range fns {
+		a := m.NewArith(fn)
+		for _, b := range fn.Blocks {
+			for _, in := range b.Instrs {
+				call, ok := in.(*ssa.Call)
+				if !ok {
+					continue
+				}
+				var prod *ssa.Function
+				for _, cal := range m.calleesOf(call) {
+					if isLookup(cal) {
+						prod = cal
+					}
+				}
+				if prod == nil || call.Referrers() == nil {
+					continue
+				}
+				var obj, found ssa.Value
+				for _, r := range *call.Referrers() {
+					if ex, isEx := r.(*ssa.Extract); isEx {
+						if ex.Index == 0 {
+							obj = ex
+						} else {
+							found = ex
+						}
+					}
+				}
+				if obj == nil {
+					continue
+				}
+				for _, use := range nilSensitiveUses(obj) {
+					n++
+					key := fmt.Sprintf("%s|object found by %s %s", fnKey(fn), prod.Name(), use.kind)
+					if ret, isRet := use.at.(*ssa.Return); isRet && isLookup(fn) {
+						_ = ret
+						s.OK(rule, key, m.InstrPos(use.at), "handed up together with its found flag by a lookup of the same form")
+						continue
+					}
+					facts := expandFacts(factsAt(use.at.Block()))
+					guarded := nilGuarded(a, obj, facts)
+					for _, f := range facts {
+						if found != nil && f.Cond == found && f.Holds {
+							guarded = true
+						}
+					}
+					if guarded {
+						s.OK(rule, key, m.InstrPos(use.at), "under the found flag of that call (or a nil test of the object)")
+					} else {
+						s.Violation(rule, key, m.InstrPos(use.at), "the object %s returns is nil when nothing was found, and here it is %s in %s without the found flag having been tested: a Go nil among the objects panics when it is printed, dumped, compared or tested", fnKey(prod), use.kind, fnKey(fn))
+					}
+				}
+			}
+		}
+	}
+	if n < 2 {
+		s.Undecided(rule, "comma-ok lookups", "-", "expected at least 2 uses of the object a (object, found) lookup returns (Env.Get in Set, in the identifier evaluation), found %d", n)
+	}
+}
